@@ -593,6 +593,21 @@ pub fn built_stream(rep: &mut Report) {
     check_built(rep, q, "subquery-without-constraints");
     let q = Query::new(QueryType::Select, Some(Type::Annotation), None);
     check_built(rep, q, "no-constraints");
+    // names the grammar cannot carry (the hypothesis NameOk of the Lean theorem query_roundtrip): white space inside or
+    // at the end (also the no-break space that trim() removes), a semicolon at the end
+    for name in ["a\u{a0}", "x;", "a b", "tab\tx"] {
+        let q = Query::new(QueryType::Select, Some(Type::Annotation), Some(name));
+        check_built(rep, q, "name-that-cannot-be-written");
+        let q = Query::new(QueryType::Select, Some(Type::Annotation), Some(name)).with_constraint(Constraint::Id("a")).with_subquery(Query::new(QueryType::Select, Some(Type::TextSelection), Some(name)));
+        check_built(rep, q, "name-that-cannot-be-written");
+    }
+    // names that look odd but are carried: empty, with braces, bars, quotes, question marks
+    for name in ["", "a{", "}", "|", "\"q\"", "??", "@x", "é", "a;b"] {
+        let q = Query::new(QueryType::Select, Some(Type::Annotation), Some(name)).with_constraint(Constraint::Id("a")).with_subquery(Query::new(QueryType::Select, Some(Type::TextSelection), Some(name)));
+        check_built(rep, q, "odd-name");
+        let q = Query::new(QueryType::Select, Some(Type::Annotation), Some(name));
+        check_built(rep, q, "odd-name");
+    }
     let q = Query::new(QueryType::Delete, Some(Type::Annotation), Some("v")).with_subquery(Query::new(QueryType::Select, Some(Type::Annotation), Some("v")).with_constraint(Constraint::Id("a")));
     check_built(rep, q, "delete");
 }
